@@ -172,31 +172,46 @@ def applyAccepted (o : Obs) (a : Ann) : Obs :=
     pending := if a.hasAssigned then upsert o.pending a.chunk a.peer else o.pending }
 
 /-- the rejecting exits of `handle_announce`: `record_announce_failure` + `record_failure` -/
-def reject (s : State) (p : String) (ps : PeerSt) (r : Reject) : State × Outcome :=
-  let ps1 := recordFailure s.now ps
-  (setPeer s p { ps1 with rep := repFailure ps1.rep }, .rejected r)
+def rejectP (now : Int) (ps : PeerSt) (r : Reject) : PeerSt × Outcome :=
+  let ps1 := recordFailure now ps
+  ({ ps1 with rep := repFailure ps1.rep }, .rejected r)
 
-/-- `Node::handle_announce` at time `s.now` -/
+/-- the checks of `handle_announce` that precede the throttle, in the order of the code -/
+def preCheck (cfg : Cfg) (a : Ann) : Option Reject :=
+  if !a.senderMatch then some .sender
+  else if !a.uriNonEmpty then some .emptyUri
+  else if !verifyPow cfg a then some .pow
+  else none
+
+/-- the checks that follow the throttle (manifest decoding and validation), in the order of the code -/
+def postCheck (a : Ann) : Option Reject :=
+  if !a.decodable then some .decode
+  else if !a.idMatch then some .idMismatch
+  else if !a.thresholdMet then some .shards
+  else if !a.unexpired then some .ttl
+  else if !a.assignedOk then some .assigned
+  else none
+
+/-- `Node::handle_announce` at time `now`, as far as the sender's own bookkeeping goes -/
+def peerAnnounce (cfg : Cfg) (now : Int) (ps0 : PeerSt) (a : Ann) : PeerSt × Outcome :=
+  let l := senderLocked now ps0
+  if l.2 then ({ l.1 with rep := repFailure l.1.rep }, .rejected .locked)
+  else match preCheck cfg a with
+    | some r => rejectP now l.1 r
+    | none =>
+      let reg := register cfg now l.1.hist
+      let ps := { l.1 with hist := reg.1 }
+      if !reg.2 then rejectP now ps .throttle
+      else match postCheck a with
+        | some r => rejectP now ps r
+        | none =>
+          -- clear_announce_failures, (state updates), record_success
+          ({ ps with fails := [], lock := none, rep := repSuccess ps.rep }, .accepted)
+
+/-- `Node::handle_announce` at time `s.now`: only the accepting exit touches the node state `obs` -/
 def announce (cfg : Cfg) (s : State) (a : Ann) : State × Outcome :=
-  let p := a.peer
-  let (ps, locked) := senderLocked s.now (s.peers p)
-  if locked then (setPeer s p { ps with rep := repFailure ps.rep }, .rejected .locked)
-  else if !a.senderMatch then reject s p ps .sender
-  else if !a.uriNonEmpty then reject s p ps .emptyUri
-  else if !verifyPow cfg a then reject s p ps .pow
-  else
-    let (h, ok) := register cfg s.now ps.hist
-    let ps := { ps with hist := h }
-    if !ok then reject s p ps .throttle
-    else if !a.decodable then reject s p ps .decode
-    else if !a.idMatch then reject s p ps .idMismatch
-    else if !a.thresholdMet then reject s p ps .shards
-    else if !a.unexpired then reject s p ps .ttl
-    else if !a.assignedOk then reject s p ps .assigned
-    else
-      -- clear_announce_failures, state updates, record_success
-      let ps := { ps with fails := [], lock := none, rep := repSuccess ps.rep }
-      ({ setPeer s p ps with obs := applyAccepted s.obs a }, .accepted)
+  let r := peerAnnounce cfg s.now (s.peers a.peer) a
+  ({ setPeer s a.peer r.1 with obs := if r.2 = .accepted then applyAccepted s.obs a else s.obs }, r.2)
 
 inductive Op where
   | adv (d : Nat)          -- the steady clock never goes back
